@@ -27,8 +27,24 @@ def data(budget_q=45, budget_t=900, min_q=20, min_t=500, extra_assumptions=()):
     }
 
 
+ADMIN_RULE = (
+    "Seeded histories of catalogue commands (streams, topics, partitions, consumer groups, memberships, users, permissions, passwords, "
+    "tokens; server-assigned and explicit ids; targets by number and by name; valid and invalid arguments; alternating TCP and HTTP) "
+    "against a sequential reference catalogue. evaluations = histories; a history is non-trivial when it contains a property-specific "
+    "event (refused command / deletion / rename by name / restart); distinct_nontrivial = distinct (config class, collapsed op-kind sequence)."
+)
+
+
+def admin(**kw):
+    d = data(**kw)
+    d["rule"] = ADMIN_RULE
+    return d
+
+
 CHECKS = {
     "C01": data(),
+    "C05": admin(),
+    "C06": admin(),
     "C02": data(),
     "C03": data(),
     "C07": data(extra_assumptions=["Named consumers collide with numeric ones only through the 32-bit name hash; that probability is ignored."]),
